@@ -834,9 +834,18 @@ func (c *Client) peekPacket() (head byte, err error) {
 		}
 	}
 
+	// A PUBLISH beyond the read buffer is served as a BigMessage once the
+	// buffer is full. Peek beyond the buffer size gives bufio.ErrBufferFull
+	// for any amount read, including incomplete fills, so don't go there.
+	peekN := size
+	big := head>>4 == typePUBLISH && size > c.bufr.Size()
+	if big {
+		peekN = c.bufr.Size()
+	}
+
 	// slice payload form read buffer
 	for {
-		if c.bufr.Buffered() < size && c.PauseTimeout != 0 {
+		if c.bufr.Buffered() < peekN && c.PauseTimeout != 0 {
 			err := c.readConn.SetReadDeadline(time.Now().Add(c.PauseTimeout))
 			if err != nil {
 				return 0, err // deemed critical
@@ -844,12 +853,12 @@ func (c *Client) peekPacket() (head byte, err error) {
 		}
 
 		lastN := len(c.peek)
-		c.peek, err = c.bufr.Peek(size)
-		switch {
-		case err == nil: // OK
-			return head, err
-		case head>>4 == typePUBLISH && errors.Is(err, bufio.ErrBufferFull):
-			return head, &BigMessage{Client: c, Size: size}
+		c.peek, err = c.bufr.Peek(peekN)
+		if err == nil {
+			if big {
+				return head, &BigMessage{Client: c, Size: size}
+			}
+			return head, nil
 		}
 
 		// Allow deadline expiry if at least one byte was transferred.
@@ -1280,7 +1289,7 @@ func (c *Client) readSlices() (message, topic []byte, err error) {
 
 			// serve big message (as error)
 			c.bigMessage.Topic = string(topic) // copy
-			beforeMessage := readBufSize - len(partialMessage)
+			beforeMessage := len(c.peek) - len(partialMessage)
 			c.bigMessage.Size -= beforeMessage
 			c.peek = nil
 			c.bufr.Discard(beforeMessage) // no errors guaranteed
